@@ -246,6 +246,10 @@ func runLongLivedClients(res *racResult, rng *rand.Rand, nl int, rowsSet []uint8
 				}
 				for _, x := range P {
 					delete(d.R, x)
+					// forgotten for good: an undo to an earlier state does not bring the cache entry back
+					for _, pv := range d.prev {
+						delete(pv, x)
+					}
 				}
 				if !d.checkInvariant(res, h, fmt.Sprintf("long-lived after-block-%d after-prune %s", k, shortHashes(P)), true) {
 					okRun = false
